@@ -21,7 +21,8 @@ from vlib.shape import Shape, Space, Ix, Q, D, BoolT, StrT, NoneT, SizeOf, UNK, 
 from vlib.viewmap import View, Op, Cat, L, K
 from obligations.shape_tables import (COMMON_SIGS, CCG, AR, Spike, SEC, RATE, Clu, CNT)
 
-FLOOR = 17
+FLOOR = 10          # decided obligations below this = the analysis lost its footing (exit 2); clean tree: 29
+RULES = ('C15.A1', 'C15.D1', 'C15.K1', 'C15.U1', 'C15.U2')          # every obligation group must report (holds / violated / undecided): a group that vanishes silently is an analysis error
 EXPLANATION = ('shape engine over correlograms() / firing_rate() (dimensions of times, samples, bins; index spaces of the relabelled clusters '
                'and of the three components of the flat index); structural role rules for earlier/later spike and the edge test; a symbolic '
                'index-map domain (views as affine maps of indices, concatenations, elementwise max) interprets _symmetrize_correlograms and its '
@@ -411,6 +412,28 @@ def run(ctx):
     if isinstance(res, Arr) and isinstance(res.elem, Q):
         ctx.check(res.elem.d() == {'cnt': 2}, 'C15.U2', fr, 'firing_rate dimension', 'counts^2 x (s / s): a pair count per bin', 'the normaliser has dimension %s, expected count^2 (bin / duration is a pure ratio)' % res.elem)
     bcs = PF.stmt('V_bc = np.bincount(E_rel)') or PF.stmt('V_bc = np.bincount(E_rel, REST)')
+    # the counts are POSITIONAL: entry p counts the spikes relabelled p (np.bincount of the relabelled spikes); the counts returned by np.unique are indexed by
+    # the labels that occur, so an id without spikes in the middle of the list shifts every later count
+    bc_name = PF.name('V_bc')
+    if bcs is not None:
+        rel_e = fr.expand(bcs.value.args[0])
+        if any(isinstance(n, ast.Call) and dotted(n.func) == '_index_of' for n in ast.walk(rel_e)):
+            ctx.holds('C15.U2', fr, 'per-cluster counts = np.bincount of the spikes relabelled by their position in the cluster list', bcs)
+        elif Pat().m('spike_clusters', rel_e):
+            ctx.violated('C15.U2', fr, bcs, 'the counts are np.bincount of the raw cluster ids, not of the spikes relabelled by position in the requested list')
+        else:
+            ctx.undecided('C15.U2', fr, 'operand of np.bincount not recognised', bcs)
+    else:
+        uq = [a for a in fr.nodes(ast.Assign) if isinstance(a.value, ast.Call) and dotted(a.value.func) == 'np.unique' and const_value(q.kwarg(a.value, 'return_counts')) is True]
+        direct = [a for a in uq if isinstance(a.targets[0], ast.Tuple) and len(a.targets[0].elts) == 2 and isinstance(a.targets[0].elts[1], ast.Name) and
+                  a.targets[0].elts[1].id == bc_name and not any(isinstance(x, ast.Assign) and isinstance(x.targets[0], ast.Subscript) and isinstance(x.targets[0].value, ast.Name)
+                                                              and x.targets[0].value.id == bc_name for x in fr.nodes(ast.Assign))]
+        if direct:
+            uq = direct
+            ctx.violated('C15.U2', fr, uq[0], 'the per-cluster counts are those of np.unique(..., return_counts=True): they are indexed by the labels that OCCUR, not by position in the '
+                         'cluster list - a listed id without spikes shifts the counts of every later cluster')
+        else:
+            ctx.undecided('C15.U2', fr, 'computation of the per-cluster counts not recognised')
     # the list of requested ids = the table the spikes are relabelled against (whatever it is called)
     rl0 = Pat(fr).stmt('V_rel = _index_of(spike_clusters, E_lookup)')
     tables = ['cluster_ids'] + ([unparse(rl0.value.args[1])] if rl0 is not None and isinstance(rl0.value.args[1], ast.Name) else [])
